@@ -20,7 +20,11 @@ def convert_vcf_records_to_model(recs: List[vcf.model._Record]) -> Dict[str, Lis
     Default parser for VCF files. Converts VCF records into `VariantIntervalModel`.
     """
     variants = {}
-    for seq_id, seq_variants in itertools.groupby(recs, key=lambda v: v.CHROM):
+    # records of one sequence need not be adjacent in the input
+    recs_by_seq_id = {}
+    for rec in recs:
+        recs_by_seq_id.setdefault(rec.CHROM, []).append(rec)
+    for seq_id, seq_variants in recs_by_seq_id.items():
         these_variants = []
         for seq_variant in seq_variants:
             if len(seq_variant.samples) > 1:
